@@ -1015,7 +1015,8 @@ def _opt_copied(I, st, fid, bi, a, c, t):
 def _res_inspect_err(I, st, fid, bi, a, c, t):
     # the closure sees &e and runs for its effects on the Err arm only; the value passes through unchanged
     def on_err(s):
-        r = _callf(I, fid, bi, a[1], [])(s, ('addr', ('tmp', 'inspect_err', fid, bi)))
+        I.write(s, ('tmp', 'inspect_err', tuple(fid), bi), I.payload(s, a[0]))
+        r = _callf(I, fid, bi, a[1], [])(s, ('addr', ('tmp', 'inspect_err', tuple(fid), bi)))
         return ('never',) if r == ('never',) else a[0]
     return _opt_cases(I, st, fid, bi, a[0], 'Ok', lambda s, p: a[0], on_err, 'inspect_err')
 
@@ -1025,7 +1026,8 @@ def _res_inspect(I, st, fid, bi, a, c, t):
     good = 'Ok' if 'Result' in (c.get('path') or '') else 'Some'
 
     def on_good(s, p):
-        r = _callf(I, fid, bi, a[1], [])(s, ('addr', ('tmp', 'inspect', fid, bi)))
+        I.write(s, ('tmp', 'inspect', tuple(fid), bi), p)
+        r = _callf(I, fid, bi, a[1], [])(s, ('addr', ('tmp', 'inspect', tuple(fid), bi)))
         return ('never',) if r == ('never',) else a[0]
     return _opt_cases(I, st, fid, bi, a[0], good, on_good, lambda s: a[0], 'inspect')
 
